@@ -109,6 +109,8 @@ pub struct SinkSt {
     pub reply_modes: Vec<ReplyMode>,
     pub fed: usize,
     pub err_budget: u8,
+    pub accepted_at_quiescence: usize,
+    pub flushed_at_quiescence: usize,
 }
 
 pub struct StreamSt {
@@ -121,6 +123,8 @@ pub struct StreamSt {
     pub idle: bool,
     pub ended: bool,
     pub depart: bool,
+    /// when the environment ended this stream (departure or connection failure)
+    pub depart_clock: Option<u64>,
     pub waker: Option<Waker>,
     pub first_touch: Option<u64>,
     pub end_clock: Option<u64>,
@@ -151,6 +155,10 @@ pub struct World {
     pub map_polls: u64,
     /// clock at the end of the run proper; drops after it are teardown
     pub end_clock: u64,
+    /// (start, end) clocks of every completed router poll
+    pub polls: Vec<(u64, u64, bool)>,
+    /// a sink operation answered Pending during the current poll (the router may be blocked on it)
+    pub sink_pending_in_poll: bool,
 }
 
 pub struct SpinAbort;
@@ -174,6 +182,8 @@ impl World {
             nondefault: 0,
             map_polls: 0,
             end_clock: u64::MAX,
+            polls: Vec::new(),
+            sink_pending_in_poll: false,
         }
     }
 
@@ -214,6 +224,8 @@ impl World {
             reply_modes: Vec::new(),
             fed: 0,
             err_budget: 1,
+            accepted_at_quiescence: 0,
+            flushed_at_quiescence: 0,
         });
         self.sinks.len() - 1
     }
@@ -229,6 +241,7 @@ impl World {
             idle: false,
             ended: false,
             depart: false,
+            depart_clock: None,
             waker: None,
             first_touch: None,
             end_clock: None,
@@ -439,6 +452,7 @@ impl MockSink {
         }
         if g.sinks[id].blocked {
             g.sinks[id].waker = Some(cx.waker().clone());
+            g.sink_pending_in_poll = true;
             g.ev.push(Ev::Sink(id, op, Res::Pending, "still blocked".into()));
             return Poll::Pending;
         }
@@ -468,6 +482,7 @@ impl MockSink {
             1 => {
                 g.sinks[id].blocked = true;
                 g.sinks[id].waker = Some(cx.waker().clone());
+                g.sink_pending_in_poll = true;
                 g.ev.push(Ev::Sink(id, op, Res::Pending, String::new()));
                 Poll::Pending
             }
@@ -487,6 +502,8 @@ fn fail_pair(g: &mut World, sink: usize) {
     if let Some(st) = g.sinks[sink].pair {
         if !g.streams[st].ended {
             g.streams[st].depart = true;
+            let c = g.clock;
+            g.streams[st].depart_clock.get_or_insert(c);
             if let Some(wk) = g.streams[st].waker.take() {
                 wk.wake();
             }
